@@ -17,7 +17,8 @@ RULE = ('root = seed of 16..64 bytes (bytes or hex string), or HDKey(key=, chain
         'reference node; hardened element in the tail: must raise through subkey_for_path, child_public, child_private); '
         'numeric indices in [2^31, 2^32) on private and public keys. Non-trivial = depth >= 2 with at least one hardened '
         'and one boundary index (0, 1, 2^31-1), or a split point strictly inside the path, or a hardened request on a '
-        'public-only key, or a numeric index >= 2^31; distinct by (root, path, split, styles).')
+        'public-only key, or a numeric index >= 2^31; distinct by (root, path, split, styles).'
+        ' [list paths are asked a second time with the same object; a tail object serves the private parent and then the public-only parent repeatedly]')
 ASSUMPTIONS = ['ref/bip32.py and ref/ec.py implement BIP32 / secp256k1 correctly (self-tested against BIP32 vectors 1-3 in '
                'ref/selftest.py)',
                'the BIP32 branches IL >= n and child key = 0 (probability ~2^-127) are not reachable by search',
